@@ -217,10 +217,11 @@ var browserURL = &url.URL{Scheme: "http", Host: "browser.example"}
 // cmd/bb_worker/main.go (base executor writing through the batched CAS
 // writer -> storage flushing -> caching over the global CAS and the AC)
 // and executes the scenario once under the given fault plan.
-func runPipeline(sc *scenario, plan map[string]string) *observation {
+func runPipeline(sc *scenario, plan map[string]string, code codes.Code) *observation {
 	w := newWorld()
 	for k, v := range plan {
 		w.plan[k] = v
+		w.planCode[k] = code
 	}
 	globalCAS := newFakeCAS(w)
 	for _, c := range sc.Preexisting {
@@ -349,6 +350,7 @@ type runScript struct {
 	Fault    int      `json:"fault"` // index into the canonical fallible calls; -1 = fault-free
 	Call     string   `json:"call,omitempty"`
 	Kind     string   `json:"kind,omitempty"`
+	Code     string   `json:"code,omitempty"` // status code of the injected error (kind "error")
 }
 
 func statusOK(s *status_pb.Status) bool { return status.ErrorProto(s) == nil }
@@ -406,14 +408,14 @@ func checkRun(sc *scenario, obs *observation, fault *fallible, kind string) erro
 			}
 		}
 	}
-	// The flush runs exactly once per action. If it reports success, every
+	// The flush runs after every action. If (its last invocation) reports success, every
 	// write the batching layer acknowledged is stored; if it reports an
 	// error, the response carries an error, is not cached and advertises
 	// no digests.
-	if len(obs.Flushes) != 1 {
-		return fmt.Errorf("flush callback invoked %d times", len(obs.Flushes))
+	if len(obs.Flushes) == 0 {
+		return fmt.Errorf("flush callback was not invoked")
 	}
-	if flushErr := obs.Flushes[0]; flushErr == nil {
+	if flushErr := obs.Flushes[len(obs.Flushes)-1]; flushErr == nil {
 		for _, c := range obs.Acked {
 			if k := keyOf(digestOf([]byte(c))); !obs.CASKeys[k] {
 				return fmt.Errorf("flush reported success but acknowledged blob %q (%s) is not in the CAS", c, k)
@@ -530,7 +532,7 @@ func referencedDigestsOfScenario(sc *scenario) []string {
 
 func TestC09PipelineFaults(t *testing.T) {
 	rec := simkit.NewRecorder(t, "C09", "pipeline_faults",
-		"scenario = generated action (do_not_cache, request well-formed or not), scripted outcome (status code, exit code), 0-9 output blobs (files, trees, root dirs, stdout, stderr, server logs) drawn from 8 contents so duplicates and the empty blob are common, some already in the CAS, batch size 1-5, upload concurrency 1-3 with generated transfer order; real BatchedStoreBlobAccess -> StorageFlushingBuildExecutor -> CachingBuildExecutor over fake CAS/AC. One fault-free run enumerates the fallible calls (FindMissing, CAS Put, AC Put, historical-response Put), then one run per (call x {error, ctx cancelled, ctx cancelled but ignored by the back ends (FindMissing/output Put only)}). Oracle: AC entry => !do_not_cache & status OK & exit 0 & every referenced digest in the CAS at the moment of the AC Put; reached error/cancel fault => status non-OK & not cached & (output write/flush fault) no digests advertised; flush()==nil => every acknowledged blob stored, flush()!=nil => status non-OK & not cached & nothing advertised; OK response advertises only stored blobs; first error wins; fault-free => cached iff allowed; every buffer released exactly once. NON-TRIVIAL = fault reached and scenario has >=2 distinct blobs; distinct by (scenario, fault index, kind); evaluations = (scenario, fault) runs")
+		"scenario = generated action (do_not_cache, request well-formed or not), scripted outcome (status code, exit code), 0-9 output blobs (files, trees, root dirs, stdout, stderr, server logs) drawn from 8 contents so duplicates and the empty blob are common, some already in the CAS, batch size 1-5, upload concurrency 1-3 with generated transfer order; real BatchedStoreBlobAccess -> StorageFlushingBuildExecutor -> CachingBuildExecutor over fake CAS/AC. One fault-free run enumerates the fallible calls (FindMissing, CAS Put, AC Put, historical-response Put), then one run per (call x {error with a status code drawn per fault from 12 codes, ctx cancelled, ctx cancelled but ignored by the back ends (FindMissing/output Put only)}). Oracle: AC entry => !do_not_cache & status OK & exit 0 & every referenced digest in the CAS at the moment of the AC Put; reached error/cancel fault => status non-OK & not cached & (output write/flush fault) no digests advertised; flush()==nil => every acknowledged blob stored, flush()!=nil => status non-OK & not cached & nothing advertised; OK response advertises only stored blobs; first error wins; fault-free => cached iff allowed; every buffer released exactly once. NON-TRIVIAL = fault reached and scenario has >=2 distinct blobs; distinct by (scenario, fault index, kind); evaluations = (scenario, fault) runs")
 	rapid.Check(t, func(rt *rapid.T) {
 		sc := genScenario(rt)
 		type run struct {
@@ -540,7 +542,7 @@ func TestC09PipelineFaults(t *testing.T) {
 		}
 		var runs []run
 		inBubble(t, func() {
-			free := runPipeline(&sc, nil)
+			free := runPipeline(&sc, nil, codes.OK)
 			runs = append(runs, run{script: runScript{Scenario: sc, Fault: -1}, obs: free})
 			calls := canonicalCalls(free.Calls)
 			for i := range calls {
@@ -550,8 +552,16 @@ func TestC09PipelineFaults(t *testing.T) {
 						// After the flush a cancellation nobody notices changes nothing.
 						continue
 					}
-					obs := runPipeline(&sc, map[string]string{f.Key: kind})
-					runs = append(runs, run{script: runScript{Scenario: sc, Fault: i, Call: f.Class, Kind: kind}, fault: &f, obs: obs})
+					// The status code of a failing call is drawn per
+					// fault: the code under test must not read a
+					// particular code as success or as retryable.
+					code, codeName := codes.OK, ""
+					if kind == faultError {
+						code = rapid.SampledFrom(errorCodes).Draw(rt, "error_code")
+						codeName = code.String()
+					}
+					obs := runPipeline(&sc, map[string]string{f.Key: kind}, code)
+					runs = append(runs, run{script: runScript{Scenario: sc, Fault: i, Call: f.Class, Kind: kind, Code: codeName}, fault: &f, obs: obs})
 				}
 			}
 		})
@@ -606,6 +616,9 @@ func TestC09PipelineFaults(t *testing.T) {
 				}
 			} else {
 				labels = append(labels, "fault:"+r.fault.Class, "kind:"+r.script.Kind)
+				if r.script.Code != "" {
+					labels = append(labels, "error_code:"+r.fault.Class+":"+r.script.Code)
+				}
 				if r.fault.Class == "fm" || r.fault.Class == "put" {
 					if r.obs.PutErrors > 0 {
 						// The sticky error of an intermediate flush surfaced in a later upload.
@@ -618,7 +631,7 @@ func TestC09PipelineFaults(t *testing.T) {
 					}
 					if r.script.Kind == faultCancelIgnored {
 						// Did the cancellation leave blobs unwritten (flush must fail) or not?
-						if r.obs.Flushes[0] != nil {
+						if r.obs.Flushes[len(r.obs.Flushes)-1] != nil {
 							labels = append(labels, "cancel_ignored:flush_failed")
 						} else {
 							labels = append(labels, "cancel_ignored:flush_ok")
